@@ -425,31 +425,82 @@ def body_stream(ctx: Ctx, n: int) -> None:
                     ctx.disagree("discd", inp, f2hex(a), m, 0)
 
 
-def _die_of(discs_areas):
-    """a real Die + Netlist (public API) holding one soft module per disc: area as given, centre set afterwards (any
-    coordinates, also negative)."""
+def _die_of(discs_areas, kinds=None):
+    """a real Die + Netlist (public API) holding one module per disc — soft (area as given), fixed / hard (one square
+    rectangle of that area; the fixed ones on disjoint places inside the die), terminal / fixed terminal (no area) —,
+    centres set afterwards (any coordinates, also negative)."""
     from frame.netlist.netlist import Netlist
     from frame.die.die import Die
     from frame.geometry.geometry import Rectangle
     Rectangle.undefine_epsilon()
-    text = "Modules: {\n" + ",\n".join(f"  M{i}: {{area: {a!r}}}" for i, (_, _, a) in enumerate(discs_areas)) + "\n}\n"
-    nl = Netlist(text)
+    kinds = kinds or ["soft"] * len(discs_areas)
+    side = [math.sqrt(a) if a > 0 else 0.0 for (_, _, a) in discs_areas]
+    big = max([1.0] + side)
+    S = max(1000.0, (2 * len(discs_areas) + 3) * big)
+    lines = []
+    for i, ((_, _, a), k) in enumerate(zip(discs_areas, kinds)):
+        if k == "soft":
+            lines.append(f"  M{i}: {{area: {a!r}}}")
+        elif k in ("fixed", "hard"):
+            lines.append(f"  M{i}: {{{k}: true, rectangles: [[{(2 * i + 1.5) * big!r}, {big!r}, {side[i]!r}, {side[i]!r}]]}}")
+        elif k == "terminal":
+            lines.append(f"  M{i}: {{terminal: true, center: [0.0, {float(i)!r}]}}")
+        else:
+            lines.append(f"  M{i}: {{terminal: true, fixed: true, center: [0.0, {float(i)!r}]}}")
+    nl = Netlist("Modules: {\n" + ",\n".join(lines) + "\n}\n")
     for m, (x, y, _) in zip(nl.modules, discs_areas):
         m.center = Point(x, y)
-    return Die("1000x1000", nl)
+    return Die(f"{S!r}x{S!r}", nl)
+
+
+def _caller_judge(ctx: Ctx, inp: dict, die, reply) -> None:
+    mods = die.netlist.modules
+    n = len(mods)
+    try:
+        v = float(FR.total_intersection_area(die))
+    except Exception as e:  # noqa: BLE001
+        ctx.spec_fail("total", inp, {"op": "total_intersection_area", "raises": type(e).__name__}, n)
+        return
+    rad = [math.sqrt(m.area() / math.pi) for m in mods]          # the radii the code derives from the areas
+    exact, allowed = mpf(0), mpf(0)
+    for i in range(n):
+        for j in range(i + 1, n):
+            exact += 2 * oracle(mods[i].center.x, mods[i].center.y, rad[i], mods[j].center.x, mods[j].center.y, rad[j])
+            allowed += 2 * mpf(1e-5) * mpf(max(rad[i], rad[j])) ** 2
+    if not (v >= 0 and math.isfinite(v)):
+        ctx.spec_fail("caller.nonneg", inp, {"total": v}, n)
+    if abs(mpf(v) - exact) > allowed:
+        ctx.spec_fail("caller.twice-the-pairs", inp, {"total": v, "twice_sum_of_exact_lens_areas": mp.nstr(exact, 20),
+                                                      "allowed": mp.nstr(allowed, 8), "kinds": inp.get("kinds")}, n)
+    if reply is not None:
+        if reply.startswith("err") or reply == "bad-op":
+            ctx.disagree("caller", inp, f2hex(v), reply, n)
+        elif f2hex(v) != reply and v != hex2f(reply):
+            if abs(v - hex2f(reply)) <= 1e-9 * max(1.0, abs(v)):
+                ctx.drift += 1
+            else:
+                ctx.disagree("caller", inp, f2hex(v), reply, n)
+
+
+def _caller_req(die) -> str:
+    mods = die.netlist.modules
+    t = [f2hex(8.0), f2hex(6.0), str(len(mods))]
+    for m in mods:
+        t += ["1", f2hex(m.center.x), f2hex(m.center.y), f2hex(m.area()), "1" if m.is_fixed else "0"]
+    t.append("0")
+    return "F tia " + " ".join(t)
 
 
 def caller_stream(ctx: Ctx, n: int) -> None:
-    """the caller `total_intersection_area`: 2..6 discs, several of them tangent / nested / coincident; the value must be
-    non-negative and equal to twice the sum over unordered pairs of the EXACT lens area (60-digit oracle), each pair within
-    the accuracy the property allows; it is also compared with the composition of the two Lean models (drv_place `tia`)."""
-    from types import SimpleNamespace
+    """the caller `total_intersection_area`: 2..6 modules of every kind (soft, fixed, hard, terminal, fixed terminal), several
+    of their discs tangent / nested / coincident; the value must be non-negative and equal to twice the sum over unordered
+    pairs of the EXACT lens area (60-digit oracle) — fixed and area-less modules included —, each pair within the accuracy the
+    property allows; it is also compared with the composition of the two Lean models (drv_place `tia`)."""
     rng = ctx.rng
-    tia = getattr(FR, "total_intersection_area", None)
-    if not callable(tia):
+    if not callable(getattr(FR, "total_intersection_area", None)):
         ctx.notes.append("total_intersection_area not found: caller stream skipped")
         return
-    cases, reqs = [], []
+    built = []
     for _ in range(n):
         k = rng.randint(2, 6)
         scale = 10.0 ** rng.uniform(-3, 3)
@@ -477,76 +528,32 @@ def caller_stream(ctx: Ctx, n: int) -> None:
             else:
                 x, y = scale * rng.uniform(-3, 3), scale * rng.uniform(-3, 3)
             discs.append((x, y, r))
-        areas = [math.pi * r * r for (_, _, r) in discs]
-        cases.append((discs, areas))
-        t = [f2hex(8.0), f2hex(6.0), str(k)]
-        for (x, y, _), a in zip(discs, areas):
-            t += ["1", f2hex(x), f2hex(y), f2hex(a), "0"]
-        t.append("0")
-        reqs.append("F tia " + " ".join(t))
-    replies = ctx.model(reqs, exe="drv_place")
-    for ci, (discs, areas) in enumerate(cases):
-        mods = discs
-        inp = {"caller": True, "family": "caller", "discs": [[f2hex(x), f2hex(y), f2hex(a)] for (x, y, _), a in zip(discs, areas)]}
+        kinds = [rng.choice(["soft", "soft", "fixed", "fixed", "hard", "terminal", "fterminal"]) for _ in range(k)]
+        if rng.random() < 0.25:
+            kinds = ["soft"] * k
+        if not any(kd in ("soft", "fixed", "hard") for kd in kinds):
+            kinds[0] = "soft"
+        items = [(x, y, 0.0 if kd in ("terminal", "fterminal") else math.pi * r * r) for (x, y, r), kd in zip(discs, kinds)]
+        inp = {"caller": True, "family": "caller", "kinds": kinds, "discs": [[f2hex(x), f2hex(y), f2hex(a)] for (x, y, a) in items]}
         try:
-            die = _die_of([(x, y, a) for (x, y, _), a in zip(discs, areas)])
-        except Exception as e:  # noqa: BLE001   (netlist construction is not C17's code)
+            die = _die_of(items, kinds)
+        except Exception as e:  # noqa: BLE001   (netlist / die construction is not C17's code)
             ctx.count("caller-build-rejected:" + type(e).__name__)
             continue
-        try:
-            v = float(tia(die))
-        except Exception as e:  # noqa: BLE001
-            ctx.spec_fail("total", inp, {"op": "total_intersection_area", "raises": type(e).__name__}, len(mods))
-            continue
-        ctx.case("caller", tuple(map(tuple, inp["discs"])), True, None)
-        rad = [math.sqrt(a / math.pi) for a in areas]          # the radii the code derives from the areas
-        exact, allowed = mpf(0), mpf(0)
-        for i in range(len(mods)):
-            for j in range(i + 1, len(mods)):
-                exact += 2 * oracle(discs[i][0], discs[i][1], rad[i], discs[j][0], discs[j][1], rad[j])
-                allowed += 2 * mpf(1e-5) * mpf(max(rad[i], rad[j])) ** 2
-        if not (v >= 0 and math.isfinite(v)):
-            ctx.spec_fail("caller.nonneg", inp, {"total": v}, len(mods))
-        if abs(mpf(v) - exact) > allowed:
-            ctx.spec_fail("caller.twice-the-pairs", inp, {"total": v, "twice_sum_of_exact_lens_areas": mp.nstr(exact, 20),
-                                                          "allowed": mp.nstr(allowed, 8)}, len(mods))
-        if replies is not None:
-            m = replies[ci]
-            if m.startswith("err") or m == "bad-op":
-                ctx.disagree("caller", inp, f2hex(v), m, len(mods))
-            elif f2hex(v) != m and v != hex2f(m):
-                if abs(v - hex2f(m)) <= 1e-9 * max(1.0, abs(v)):
-                    ctx.drift += 1
-                else:
-                    ctx.disagree("caller", inp, f2hex(v), m, len(mods))
+        built.append((inp, die))
+        for kd in set(kinds):
+            ctx.count("caller-has-" + kd)
+    replies = ctx.model([_caller_req(die) for _, die in built], exe="drv_place")
+    for ci, (inp, die) in enumerate(built):
+        ctx.case("caller", (tuple(map(tuple, inp["discs"])), tuple(inp["kinds"])), True, None)
+        _caller_judge(ctx, inp, die, None if replies is None else replies[ci])
 
 
 def replay_caller(ctx: Ctx, inp: dict) -> None:
-    from types import SimpleNamespace
-    discs = [(hex2f(x), hex2f(y), hex2f(a)) for x, y, a in inp["discs"]]
-    mods = discs
-    try:
-        v = float(FR.total_intersection_area(_die_of(discs)))
-    except Exception as e:  # noqa: BLE001
-        ctx.spec_fail("total", inp, {"op": "total_intersection_area", "raises": type(e).__name__}, len(mods))
-        return
-    rad = [math.sqrt(a / math.pi) for (_, _, a) in discs]
-    exact, allowed = mpf(0), mpf(0)
-    for i in range(len(mods)):
-        for j in range(i + 1, len(mods)):
-            exact += 2 * oracle(discs[i][0], discs[i][1], rad[i], discs[j][0], discs[j][1], rad[j])
-            allowed += 2 * mpf(1e-5) * mpf(max(rad[i], rad[j])) ** 2
-    if not v >= 0:
-        ctx.spec_fail("caller.nonneg", inp, {"total": v}, len(mods))
-    if abs(mpf(v) - exact) > allowed:
-        ctx.spec_fail("caller.twice-the-pairs", inp, {"total": v, "twice_sum_of_exact_lens_areas": mp.nstr(exact, 20)}, len(mods))
-    t = [f2hex(8.0), f2hex(6.0), str(len(discs))]
-    for (x, y, a) in discs:
-        t += ["1", f2hex(x), f2hex(y), f2hex(a), "0"]
-    t.append("0")
-    rep = ctx.model(["F tia " + " ".join(t)], exe="drv_place")
-    if rep and rep[0] != f2hex(v) and not (not rep[0].startswith("err") and abs(hex2f(rep[0]) - v) <= 1e-9 * max(1.0, abs(v))):
-        ctx.disagree("caller", inp, f2hex(v), rep[0], len(mods))
+    items = [(hex2f(x), hex2f(y), hex2f(a)) for x, y, a in inp["discs"]]
+    die = _die_of(items, inp.get("kinds"))
+    rep = ctx.model([_caller_req(die)], exe="drv_place")
+    _caller_judge(ctx, inp, die, None if rep is None else rep[0])
 
 
 def history_stream(ctx: Ctx, n: int, fixed=None) -> None:
@@ -662,7 +669,7 @@ def run(ctx: Ctx) -> None:
                 "(2 of 13 draws; mostly at the origin so that the prescribed distance survives); very far apart centres "
                 "(distance 10^U(153.5, 307.9), where the squared distance is not a double); radii short decimals / dyadic / uniform at scales 1e-6…1e6 (half of the cases), 1e-160…1e150, "
                 "1e-160…1e-140 and 1e140…1e150, one disc possibly 1e-17…1e-1 of the other; centres axis-aligned or rotated, at the "
-                "origin or offset by up to 1000 radii; every pair is evaluated in both argument orders. A second stream drives the body with exact (r1, r2, d) triples through a stand-in for c1 - c2 (distances down to 5e-324 against radii up to 1e150, radius ratios 1e-17…1e-14, exact tangencies, the nearly-equal-radii family), which reaches the zero-divisor guard. A fourth stream (`history`) keeps the SAME Point objects through 2..6 steps (moved in place by assignment and by +=, lens / far / nested / coincident / ±4 ulp of the tangencies) and re-evaluates with the same radii: every answer vs the oracle for the CURRENT coordinates and bit-equal to fresh Points, interleaved with total_intersection_area on a live netlist holding those Points vs a freshly built netlist. A third stream (`caller`) evaluates total_intersection_area on 2..6 discs (tangent / nested / coincident / lens, scales 1e-3..1e3) against twice the sum over unordered pairs of the exact lens area and against the composed Lean models. In the thorough tier 20% (quick 2%) of the pairs take their radii from the WHOLE range of positive doubles (5e-324 … 1.7e308, the smaller one <= 1e150) with centre distances up to the largest double. The exact area is computed twice, by the acos form and by an independent atan2 form, which must agree to 1e-30·R². Far-apart pairs are "
+                "origin or offset by up to 1000 radii; every pair is evaluated in both argument orders. A second stream drives the body with exact (r1, r2, d) triples through a stand-in for c1 - c2 (distances down to 5e-324 against radii up to 1e150, radius ratios 1e-17…1e-14, exact tangencies, the nearly-equal-radii family), which reaches the zero-divisor guard. A fourth stream (`history`) keeps the SAME Point objects through 2..6 steps (moved in place by assignment and by +=, lens / far / nested / coincident / ±4 ulp of the tangencies) and re-evaluates with the same radii: every answer vs the oracle for the CURRENT coordinates and bit-equal to fresh Points, interleaved with total_intersection_area on a live netlist holding those Points vs a freshly built netlist. A third stream (`caller`) evaluates total_intersection_area on a real netlist of 2..6 modules of every kind (soft, fixed and hard with a rectangle, terminals and fixed terminals without area; discs tangent / nested / coincident / lens, scales 1e-3..1e3) against twice the sum over unordered pairs of the exact lens area and against the composed Lean models. In the thorough tier 20% (quick 2%) of the pairs take their radii from the WHOLE range of positive doubles (5e-324 … 1.7e308, the smaller one <= 1e150) with centre distances up to the largest double. The exact area is computed twice, by the acos form and by an independent atan2 form, which must agree to 1e-30·R². Far-apart pairs are "
                 "trivial; distinct = distinct (centres, radii)")
     cases = []
     full_range = 0.02 if ctx.tier == "quick" else 0.2
